@@ -1,6 +1,6 @@
-\* exhaustive + emission (both tiers): thin-but-real overlaps.  One unit = 1/32 cm; source boundary at 1200,
-\* target boundaries one unit beside it: overlaps of 1/1199 .. 1/1201 of a cell
-CONSTANTS H = 2400  SrcPts = {1200}  DstPts = {1199, 1201}  Profiles = {1, 2, 3, 4, 11, 12}  FuelChoices = {3}  SolveProfiles = {}
+\* exhaustive + emission (both tiers): thin-but-real overlaps, the other way round: a source block of two units (1199..1201)
+\* and target boundary at 1200: a cell of 1200 units overlaps it by one unit
+CONSTANTS H = 2400  SrcPts = {1199, 1201}  DstPts = {1200}  Profiles = {1, 2, 3, 4, 11, 12, 13}  FuelChoices = {3}  SolveProfiles = {}
           Jitters = {"none"}  Ops = {"MakeUniform"}  SnapFlags = {}
           SnapProfiles = {}  MaxLevel = 5
 INVARIANT EmitState
